@@ -282,6 +282,45 @@ for fname, op in OPS:
             ck.require(ex, 'G5_fail_suspect_keep_incarnation', r.pc, hyp, z3.And(keep) if keep else z3.BoolVal(True), wit, lambda m, w, op=op: op + '-inc')
 ck.obl['G5_fail_suspect_keep_incarnation']['allow_vacuous'] = False
 
+# ------------------------------------------------------------------ G6: a suspicion and the Alive that answers it commute
+ck.declare('G6_suspect_and_answering_alive_commute', 'suspect(m, a) and refute(m, b) with b > a (the member answers a suspicion by announcing a higher incarnation), both delivery orders '
+           'from the same arbitrary view',
+           'both orders end with the same health and incarnation for every member (an Alive that overtakes the Suspect it answers is not lost)')
+st = make_initial()
+S = st.roots['S']
+gid = st.fresh('std::string::String', 'arg_id')
+ga, gb = st.fresh('u64', 'arg_inc'), st.fresh('u64', 'arg_inc2')
+g6 = 0
+def two_ops(first, second):
+    outs = []
+    c = st.clone()
+    for x in run_one(c, 'LWWMembershipState::' + first[0], [c.roots['S'], ref(gid), first[1]]):
+        if x.status != 'return':
+            ck.note_path_problem([x], f'G6 {first[0]} first')
+            continue
+        for y in run_one(x.st, 'LWWMembershipState::' + second[0], [x.st.roots['S'], ref(gid), second[1]]):
+            if y.status != 'return':
+                ck.note_path_problem([y], f'G6 {first[0]},{second[0]}')
+                continue
+            outs.append(y.st)
+    return outs
+
+
+SF, AF = two_ops(('suspect', ga), ('refute', gb)), two_ops(('refute', gb), ('suspect', ga))
+for fa in SF:
+    for fb in AF:
+        if not same_shape(fa, fb):
+            continue
+        g6 += 1
+        pc = list(fa.pc) + list(fb.pc)
+        va, vb = view_of(fa), view_of(fb)
+        hyp = z3.And([z3.UGT(gb.v, ga.v)] + [z3.ULT(v.v, LIM) for k, v in fa.symbols.items() if k.startswith('S.0.v') and k.endswith('.2')])
+        wit = lambda m, fa=fa, fb=fb, va=va, vb=vb: {'op': 'suspect_alive', 'pre': {k: mval(m, v.v if isinstance(v, Int) else (v.id if isinstance(v, Str) else v)) for k, v in list(fb.symbols.items()) + list(fa.symbols.items())},
+                                                     'view_suspect_first': [[mval(m, x) for x in e[:3]] for e in va], 'view_alive_first': [[mval(m, x) for x in e[:3]] for e in vb]}
+        ck.require(ex, 'G6_suspect_and_answering_alive_commute', pc, hyp, view_eq(va, vb), wit, lambda m, w: 'suspect-alive-order')
+if g6 == 0:
+    ck.inconclusive.append('G6: no jointly explorable path pair')
+
 # ------------------------------------------------------------------ native replay of counterexamples
 for v in ck.violations:
     w = v['witness']
@@ -301,6 +340,10 @@ for v in ck.violations:
         rep = Replay.call({'op': 'gossip_merge_schedules', 'pre': w['pre'], 'updates': w['updates'], 'a': w['schedule_a'], 'b': w['schedule_b']})
         v['replayed'] = rep.get('equal') is False
         v['native'] = rep
+    elif v['obligation'].startswith('G6'):
+        rep = Replay.call({'op': 'gossip_suspect_alive', 'pre': w['pre']})
+        v['native'] = rep
+        v['replayed'] = rep.get('differ')
     elif v['obligation'].startswith(('G4', 'G5')):
         rep = Replay.call({'op': 'gossip_local_op', 'gop': w['op'], 'pre': w['pre']})
         v['native'] = rep
